@@ -160,6 +160,22 @@ def tlc_model(module: str, cfg: str | None = None, **kw) -> TLCResult:
     return r
 
 
+def run_apalache(module: str, init: str, inv: str, length: int, timeout: int = 1200) -> dict:
+    """apalache-mc check on spec/<module>.tla; ok iff it reports no error"""
+    sc = scratch()
+    out = Path(tempfile.mkdtemp(prefix='apa-', dir=sc))
+    t0 = time.time()
+    try:
+        p = subprocess.run(['apalache-mc', 'check', f'--init={init}', f'--inv={inv}', f'--length={length}',
+                            f'--out-dir={out}', str(SPEC / f'{module}.tla')],
+                           capture_output=True, text=True, timeout=timeout, cwd=str(out))
+        text = p.stdout + p.stderr
+    except (subprocess.TimeoutExpired, FileNotFoundError) as e:
+        return {'ok': False, 'violated': False, 'wall': time.time() - t0, 'out': repr(e)}
+    return {'ok': 'EXITCODE: OK' in text, 'violated': 'violat' in text.lower() and 'EXITCODE: OK' not in text,
+            'wall': time.time() - t0, 'out': text[-3000:]}
+
+
 class Judgement:
     def __init__(self):
         self.records = 0          # records given to TLC
